@@ -165,6 +165,66 @@ var programs = []prog{ // {name, run, noSubset}
 		}
 		return "9", ""
 	}},
+	{name: "cond-gate", run: func() (string, string) {
+		// a gate of two slots made of a mutex and a condition variable: never
+		// more than two inside, everybody gets through, a waiter only goes on
+		// after a signal
+		var mu sync.Mutex
+		free := sync.NewCond(&mu)
+		active, peak := 0, 0
+		done := make(chan bool, 5)
+		for k := 0; k < 5; k++ {
+			simrt.Go(func() {
+				simrt.Lock(&mu, "conform")
+				for active >= 2 {
+					simrt.CondWait(free, "conform")
+				}
+				active++
+				if active > peak {
+					peak = active
+				}
+				simrt.Unlock(&mu)
+				simrt.Yield("conform-inside")
+				simrt.Lock(&mu, "conform")
+				active--
+				simrt.Unlock(&mu)
+				simrt.CondSignal(free)
+				simrt.Send(done, true, "conform")
+			})
+		}
+		for k := 0; k < 5; k++ {
+			simrt.Recv[bool](done, "conform")
+		}
+		if peak > 2 || active != 0 {
+			return fmt.Sprint(peak, active), "the gate let more than two in, or somebody never left"
+		}
+		return "ok", ""
+	}},
+	{name: "cond-broadcast", run: func() (string, string) {
+		var mu sync.Mutex
+		c := sync.NewCond(&mu)
+		open := false
+		done := make(chan bool, 3)
+		for k := 0; k < 3; k++ {
+			simrt.Go(func() {
+				simrt.Lock(&mu, "conform")
+				for !open {
+					simrt.CondWait(c, "conform")
+				}
+				simrt.Unlock(&mu)
+				simrt.Send(done, true, "conform")
+			})
+		}
+		simrt.Sleep(time.Millisecond)
+		simrt.Lock(&mu, "conform")
+		open = true
+		simrt.Unlock(&mu)
+		simrt.CondBroadcast(c)
+		for k := 0; k < 3; k++ {
+			simrt.Recv[bool](done, "conform")
+		}
+		return "ok", ""
+	}},
 	{name: "unbuffered-rendezvous", run: func() (string, string) {
 		// a send on an unbuffered channel completes only with a receiver
 		ch := make(chan int)
